@@ -1,6 +1,7 @@
 import St4sd.Lemmas.C18Confine
 import St4sd.Lemmas.C18Keys
 import St4sd.Lemmas.C18Stagers
+import St4sd.Lemmas.C18StagersLocal
 /-!
 # C18 — Staging and deployment never write outside their target directory
 
@@ -555,6 +556,42 @@ theorem stagers_confined (fs : Fs) (dA dB : Path) (msA msB : List Member) (sched
   · intro p hp
     have := hw.b.log p hp
     exact ⟨this, apart_under' hap this⟩
+
+/-- **stager_receives_own_members**: under *every* schedule each component ends with exactly what staging its
+own archive ALONE gives — the same answer, the same log, the same members left (none), and a working directory
+that holds, location by location, what the solo extraction puts there: nothing of the other component's archive,
+nothing of its own missing.  (`(Stager.init d ms).drain fs` is the extraction of `ms` into `d` with nobody else
+around.)  Extraction is local to the working directory (`Lemmas/C18StagersLocal.lean`: `extractOne_local`). -/
+theorem stager_receives_own_members (fs : Fs) (dA dB : Path) (msA msB : List Member) (sched : List Bool)
+    (hap : Apart dA dB) (hA : Safe dA fs) (hB : Safe dB fs) :
+    (runStagers fs dA dB msA msB sched).a = ((Stager.init dA msA).drain fs).2 ∧
+    (∀ p, dA <:+ p → (runStagers fs dA dB msA msB sched).fs.get p = ((Stager.init dA msA).drain fs).1.get p) ∧
+    (runStagers fs dA dB msA msB sched).b = ((Stager.init dB msB).drain fs).2 ∧
+    (∀ p, dB <:+ p → (runStagers fs dA dB msA msB sched).fs.get p = ((Stager.init dB msB).drain fs).1.get p) := by
+  have h0 : WGood dA dB fs { fs := fs, a := Stager.init dA msA, b := Stager.init dB msB } :=
+    ⟨sgood_init dA msA, sgood_init dB msB, hA, hB, fun _ _ _ => rfl⟩
+  have ta : TrackA dA dB fs ((Stager.init dA msA).drain fs) { fs := fs, a := Stager.init dA msA, b := Stager.init dB msB } :=
+    ⟨h0, pending_init dA msA, fs, agree_refl dA fs, hA, rfl⟩
+  have tb : TrackB dA dB fs ((Stager.init dB msB).drain fs) { fs := fs, a := Stager.init dA msA, b := Stager.init dB msB } :=
+    ⟨h0, pending_init dB msB, fs, agree_refl dB fs, hB, rfl⟩
+  obtain ⟨ha1, ha2⟩ := trackA_finish hap (trackA_sched hap sched _ ta)
+  obtain ⟨hb1, hb2⟩ := trackB_finish hap (trackB_sched hap sched _ tb)
+  exact ⟨ha1, ha2, hb1, hb2⟩
+
+/-- in particular the result does not depend on the schedule -/
+theorem stagers_schedule_independent (fs : Fs) (dA dB : Path) (msA msB : List Member) (s1 s2 : List Bool)
+    (hap : Apart dA dB) (hA : Safe dA fs) (hB : Safe dB fs) :
+    (runStagers fs dA dB msA msB s1).a = (runStagers fs dA dB msA msB s2).a ∧
+    (runStagers fs dA dB msA msB s1).b = (runStagers fs dA dB msA msB s2).b ∧
+    (∀ p, dA <:+ p ∨ dB <:+ p →
+      (runStagers fs dA dB msA msB s1).fs.get p = (runStagers fs dA dB msA msB s2).fs.get p) := by
+  obtain ⟨a1, f1, b1, g1⟩ := stager_receives_own_members fs dA dB msA msB s1 hap hA hB
+  obtain ⟨a2, f2, b2, g2⟩ := stager_receives_own_members fs dA dB msA msB s2 hap hA hB
+  refine ⟨a1.trans a2.symm, b1.trans b2.symm, ?_⟩
+  intro p hp
+  rcases hp with hp | hp
+  · exact (f1 p hp).trans (f2 p hp).symm
+  · exact (g1 p hp).trans (g2 p hp).symm
 
 private theorem step_idle (fs : Fs) (s : Stager) (h : s.todo = []) : s.step fs = (fs, s) := by
   simp [Stager.step, h]
